@@ -21,7 +21,7 @@ RULE = ("(E1) every Command subclass with every parameter value in its domain - 
         "property ids, SetPropertiesCommand for all 512 subsets of the 9 supported ids x every enum value, SetStateCommand over the "
         "C10 design, both capability pages, display toggle with beep on/off, state/energy/humidity queries - is serialised and fed to "
         "an independent spec-conforming device parser (0xAA, length byte, appliance 0xAC, frame type per command, message id + CRC-8, "
-        "checksum, body grammar); the library CRC table is compared with a bitwise CRC-8. (E3 history) every public AirConditioner "
+        "checksum, body grammar), also as every ordered pair of ~30 commands of all classes and sizes; the library CRC table is compared with a bitwise CRC-8. (E3 history) every public AirConditioner "
         "operation is driven on the simulated wire in long mixed sequences (with injected retransmissions and several initial "
         "counter values): the device must accept every frame and ids must advance by exactly one modulo 256, retransmissions "
         "repeating their id. state = (last id, operation index); transition = one command on the wire")
@@ -42,7 +42,7 @@ def bounds(tier):
 
 def shards(tier):
     out = [("crc", 0), ("getprops", 0), ("getprops", 1), ("setprops", 0), ("setprops", 1), ("setstate", 0), ("misc", 0), ("reuse", 0),
-           ("concurrent", 0)]
+           ("concurrent", 0), ("pairs", 0), ("pairs", 1)]
     n = hist_len(tier)
     for i, start in enumerate([0, 250, 65530, 2 ** 31 - 3, 2 ** 64 - 2]):
         out.append(("history", i, start, n if i == 0 else min(n, 1500)))
@@ -168,6 +168,31 @@ def run_direct(st: Stats, kind, part):
             # serialising one object again is either a new command (+1) or a repeat of the same one (same id): both are fine
             if None not in ids and any((b - a) % 256 not in (0, 1) for a, b in zip(ids, ids[1:])):
                 st.violation(f"{mk.__name__}(reused object): message id jumps", {"cmd": mk.__name__}, "+1 or repeat", ids)
+    elif kind == "pairs":
+        # every ordered pair of commands from an alphabet that contains every class in several sizes (so that commands of
+        # different kinds but equal length meet): the second one is still what its class documents
+        alpha = []
+        for k in range(0, len(ALL_PROPS) + 1):
+            alpha.append((f"GetProperties[{k}]", lambda k=k: cmd.GetPropertiesCommand(list(ALL_PROPS[:k])), 0xB1, 3))
+        for k in range(0, len(SUPPORTED) + 1):
+            alpha.append((f"SetProperties[{k}]", lambda k=k: cmd.SetPropertiesCommand({p_: PVALUES[p_][-1] for p_ in SUPPORTED[:k]}), 0xB0, 2))
+        alpha += [("GetState", cmd.GetStateCommand, 0x41, 3), ("GetEnergyUsage", cmd.GetEnergyUsageCommand, 0x41, 3),
+                  ("GetHumidity", cmd.GetHumidityCommand, 0x41, 3), ("ToggleDisplay", cmd.ToggleDisplayCommand, 0x41, 3),
+                  ("SetState", cmd.SetStateCommand, 0x40, 2), ("GetCapabilities", cmd.GetCapabilitiesCommand, 0xB5, 3),
+                  ("GetCapabilities(additional)", lambda: cmd.GetCapabilitiesCommand(True), 0xB5, 3)]
+        idx = 0
+        for na, mka, ca, ta in alpha:
+            for nb, mkb, cb, tb in alpha:
+                idx += 1
+                if idx % 2 != part:
+                    continue
+                case = {"cmd": f"{nb} right after {na}"}
+                p1 = accept(st, dev, mka().tobytes, {"cmd": na}, ca, ta)
+                id1 = dev.msg_ids[-1] if not p1 else None
+                p2 = accept(st, dev, mkb().tobytes, case, cb, tb)
+                if not p1 and not p2 and (dev.msg_ids[-1] - id1) % 256 != 1:
+                    st.violation("pair of commands: message id does not advance by one", case, (id1 + 1) % 256, dev.msg_ids[-1])
+                st.ev(("pair", na, nb), "ok" if not (p1 or p2) else "bad", True)
     elif kind == "concurrent":
         run_concurrent(st)
     elif kind == "setstate":
@@ -360,7 +385,7 @@ def replay(case):
     if case.get("cmd") == "history":
         run_history(st, 0, case["start"], case["n"])
     else:
-        for k in ("crc", "getprops", "setprops", "setstate", "misc"):
+        for k in ("crc", "getprops", "setprops", "setstate", "misc", "pairs"):
             run_direct(st, k, 0)
             run_direct(st, k, 1)
     return sorted(st.viol_counts)
